@@ -284,7 +284,7 @@ def splice_unit(u, scratch, probes, wdir):
                     spec[m.group(1)] = m.group(2)
             body = vsplice.extract_statement(text, spec["from"], spec["start"])
             extracted.append("/* extracted verbatim from %s(): statement starting at %r */\n%s %s(%s)\n{\n%s\n%s\n%s\n}\n"
-                             % (spec["from"], spec["start"], spec.get("returns_type", "void"), b.args[0], spec.get("params", "void"),
+                             % (spec["from"], spec["start"].replace("/*", "").replace("*/", "").strip(), spec.get("returns_type", "void"), b.args[0], spec.get("params", "void"),
                                 spec.get("locals", ""), body, spec.get("return", "")))
             info.setdefault("extractions", []).append("%s <- %s(): %d bytes verbatim" % (b.args[0], spec["from"], len(body)))
     if extracted:
